@@ -81,6 +81,14 @@ def _gen(ctx, deep, UNIVERSE, tag, nbig_quick, nbig_deep):
         hists.append(list(reads))
         for o in ops:
             hists.append(pc.interleave_reads([o], reads))
+        # directed triples: an ordered insertion, a removal (single / filtered) of a rule standing before it, another
+        # insertion with a priority already present (positions remembered from before the removal must not be reused)
+        if init:
+            for r1 in absent[:3]:
+                for rm in (("removefiltered", "p", "p", 1, ["bob"]), ("removefiltered", "p", "p", 1, ["alice"]), ("remove", "p", "p", init[0])):
+                    for r2 in absent[:4]:
+                        if r2 != r1:
+                            hists.append(pc.interleave_reads([("add", "p", "p", r1), rm, ("add", "p", "p", r2)], reads[:2]))
         nseq = 6 if not deep else 20
         for _ in range(nseq):
             h = [rng.choice(ops + [("add", "p", "p", r) for r in init]) for _ in range(rng.randint(2, 5))]
